@@ -1,4 +1,5 @@
 import OSProofs.Props.C02
+import OSProofs.Props.PredictLoops
 #print axioms OS.compute_ids
 #print axioms OS.inflate_ids
 #print axioms OS.clampTeams_ids
@@ -17,3 +18,4 @@ import OSProofs.Props.C02
 #print axioms OS.unwind_first
 #print axioms OS.C02_team_update_some
 #print axioms OS.unwind_map
+#print axioms OS.unwindCode_eq
